@@ -385,11 +385,10 @@ var panicExemptions = map[string]string{
 	"panic|core.throwJavascript":                   "by design: the panic carries a JavaScript exception that otto catches and turns into a script error",
 	"panic|core.RunJavascript$14":                  "by design: the watchdog's interrupt function panics with Halt inside the otto runtime; RunJavascript's deferred recover turns it into an error (RECOVER-RESULT)",
 	"panic|core.RunJavascript$14$1":                "see RunJavascript$14",
-	"index|(*core.Location).ListRules":             "a SearchResult is only emitted with at least one binding (SEARCH-REMATCH: 0 < len(bss))",
-	"index|(*core.OutboundBreaker).Do":             "counts is allocated by init with the constant breakerTicks (20) elements",
-	"index|(*cron.Cron).Add":                       "guarded by core.OneShotSchedule(schedule), which is false for the empty string",
-	"index|core.Log":                               "args always holds at least the op key and the appended origin fields",
-	"index|cron.ParseSchedule":                     "strings.SplitN never returns an empty slice for n != 0",
+	"index|(*core.Location).ListRules|field core.SearchResult.Bindingss[0]": "a SearchResult is only emitted with at least one binding (SEARCH-REMATCH: 0 < len(bss))",
+	"index|(*cron.Cron).Add|param schedule[1]":     "guarded by core.OneShotSchedule(schedule), which is false for the empty string",
+	"index|core.Log|append[1]":                     "args always holds at least the op key and the appended origin fields",
+	"index|cron.ParseSchedule|strings.SplitN[0]":   "strings.SplitN never returns an empty slice for n != 0",
 }
 
 func panicKey(w *World, s panicSite) (string, string) {
@@ -398,7 +397,90 @@ func panicKey(w *World, s panicSite) (string, string) {
 		ta := s.In.(*ssa.TypeAssert)
 		detail = "|" + types.TypeString(ta.AssertedType, func(p *types.Package) string { return p.Name() })
 	}
+	if s.Kind == "index" {
+		// what is indexed (its producer, never an SSA register name) and with which constant: an exemption speaks
+		// about one indexed expression, not about every index in the function
+		var x, idx ssa.Value
+		switch y := s.In.(type) {
+		case *ssa.Lookup:
+			x, idx = y.X, y.Index
+		case *ssa.IndexAddr:
+			x, idx = y.X, y.Index
+		case *ssa.Index:
+			x, idx = y.X, y.Index
+		case *ssa.Slice:
+			x, idx = y.X, y.High
+		}
+		detail = "|" + producerName(x) + "[" + constText(idx) + "]"
+	}
 	return s.Kind + "|" + fname(s.Fn) + detail, detail
+}
+
+func constText(v ssa.Value) string {
+	if c, ok := v.(*ssa.Const); ok && c.Value != nil {
+		return c.Value.String()
+	}
+	return "?"
+}
+
+// producerName: a stable name for where a value comes from: the callee of the call that produced it, the
+// parameter, the field or the global it was loaded from.
+func producerName(v ssa.Value) string {
+	for i := 0; i < 6 && v != nil; i++ {
+		switch x := v.(type) {
+		case *ssa.Call:
+			if f := x.Common().StaticCallee(); f != nil {
+				return fname(f)
+			}
+			if x.Common().IsInvoke() {
+				return x.Common().Method.Name()
+			}
+			if b, ok := x.Common().Value.(*ssa.Builtin); ok {
+				return b.Name()
+			}
+			return "call"
+		case *ssa.Extract:
+			v = x.Tuple
+			continue
+		case *ssa.Parameter:
+			return "param " + x.Name()
+		case *ssa.FreeVar:
+			return "var " + x.Name()
+		case *ssa.Global:
+			return "global " + x.Name()
+		case *ssa.UnOp:
+			if fa, ok := x.X.(*ssa.FieldAddr); ok {
+				if n, f, _, ok := fieldOf(fa); ok {
+					return "field " + typeKey(n) + "." + f
+				}
+			}
+			if a, ok := x.X.(*ssa.Alloc); ok {
+				return "local " + a.Comment
+			}
+			v = x.X
+			continue
+		case *ssa.Slice:
+			v = x.X
+			continue
+		case *ssa.ChangeType:
+			v = x.X
+			continue
+		case *ssa.Convert:
+			v = x.X
+			continue
+		case *ssa.Phi:
+			return "phi " + x.Comment
+		case *ssa.TypeAssert:
+			return "assert " + types.TypeString(x.AssertedType, func(p *types.Package) string { return p.Name() })
+		case *ssa.Lookup:
+			return "lookup"
+		}
+		break
+	}
+	if v == nil {
+		return "?"
+	}
+	return types.TypeString(v.Type(), func(p *types.Package) string { return p.Name() })
 }
 
 func rulePanics(w *World, r *Report) {
